@@ -74,7 +74,8 @@ type Case struct {
 const (
 	OffAny      = iota // ExpectConsumePartition(…, AnyOffset)
 	OffMatch           // literal, ConsumePartition called with the same literal
-	OffMismatch        // literal, ConsumePartition called with another offset
+	OffMismatch        // literal, ConsumePartition called with a higher offset
+	OffMismatchBelow   // literal, ConsumePartition called with a lower offset
 )
 const (
 	ClNone       = iota // partition consumer only closed through Consumer.Close
@@ -330,14 +331,14 @@ func count(s string, ch byte) int {
 }
 
 // partSpecs: every behaviour of the test towards one registered partition.
-func partSpecs(topic string, partition int32, maxYield int, yieldAfter bool) []PartSpec {
+func partSpecs(topic string, partition int32, maxYield int, yieldAfter bool, maxOff int) []PartSpec {
 	var out []PartSpec
 	for _, ys := range yieldScripts(maxYield) {
 		for _, dm := range bools {
 			for _, de := range bools {
 				// never consumed (offset expectation irrelevant, no reads, no own close operation)
 				out = append(out, PartSpec{Topic: topic, Partition: partition, Off: OffAny, Script: ys, DM: dm, DE: de})
-				for off := OffAny; off <= OffMismatch; off++ {
+				for off := OffAny; off <= maxOff; off++ {
 					for rm := 0; rm <= count(ys, 'M'); rm++ {
 						for re := 0; re <= count(ys, 'E'); re++ {
 							for cl := ClNone; cl <= ClAsyncDrain; cl++ {
@@ -384,7 +385,7 @@ func closeOrders(parts []PartSpec) [][]int {
 }
 
 func enumCons1(b bounds, visit func(*Case) bool) bool {
-	for _, ps := range partSpecs("t", 0, b.Cons1Yields, true) {
+	for _, ps := range partSpecs("t", 0, b.Cons1Yields, true, OffMismatchBelow) {
 		parts := []PartSpec{ps}
 		for _, ord := range closeOrders(parts) {
 			for _, gh := range bools {
@@ -398,8 +399,8 @@ func enumCons1(b bounds, visit func(*Case) bool) bool {
 }
 
 func enumCons2(b bounds, visit func(*Case) bool) bool {
-	first := partSpecs("t", 0, b.Cons2Yields, false)
-	for _, second := range [][]PartSpec{partSpecs("t", 1, b.Cons2Yields, false), partSpecs("u", 0, b.Cons2Yields, false)} {
+	first := partSpecs("t", 0, b.Cons2Yields, false, OffMismatch)
+	for _, second := range [][]PartSpec{partSpecs("t", 1, b.Cons2Yields, false, OffMismatch), partSpecs("u", 0, b.Cons2Yields, false, OffMismatch)} {
 		for _, p0 := range first {
 			for _, p1 := range second {
 				parts := []PartSpec{p0, p1}
